@@ -328,10 +328,29 @@ def run_counts(ctx):
             PrimaryKey(name, sem)
             students = Set('Student')
             lessons = Set('Lesson')
+        class Room(db.Entity):                       # composite key, reached through an OPTIONAL reference
+            building = Required(str)
+            number = Required(int)
+            PrimaryKey(building, number)
+            students = Set('Student')
+        class Animal(db.Entity):                     # composite key, with a subclass
+            name = Required(str)
+            year = Required(int)
+            PrimaryKey(name, year)
+        class Dog(Animal):
+            keepers = Set('Student', reverse='dog')
+            fans = Set('Student', reverse='pets')
+        class Tutor(db.Entity):                      # simple key: the control case
+            id = PrimaryKey(int)
+            students = Set('Student')
         class Student(db.Entity):
             id = PrimaryKey(int)
             group = Required(Group)
             courses = Set(Course)
+            room = Optional(Room)
+            dog = Optional(Dog, reverse='keepers')
+            pets = Set(Dog, reverse='fans')
+            tutor = Optional(Tutor)
         class Lesson(db.Entity):
             id = PrimaryKey(int)
             course = Required(Course)
@@ -339,7 +358,7 @@ def run_counts(ctx):
         db.bind(prov, ':memory:' if prov != 'oracle' else 'user/pwd@host')
         if prov == 'sqlite': db.generate_mapping(create_tables=True)
         else: db.generate_mapping(check_tables=False)
-        return db, dict(Group=Group, Course=Course, Student=Student, Lesson=Lesson, select=select, count=count)
+        return db, dict(Group=Group, Course=Course, Student=Student, Lesson=Lesson, Room=Room, Animal=Animal, Dog=Dog, Tutor=Tutor, select=select, count=count, len=len)
     QUERIES = [
         ("select((g.id, count(c)) for g in Group for s in g.students for c in s.courses)", lambda G, C, S, L: [(g.id, len({c for s in g.students for c in s.courses})) for g in G if any(s.courses for s in g.students)]),
         ("select((l.room, count(l.course)) for l in Lesson)", lambda G, C, S, L: [(r, len({l.course for l in L if l.room == r})) for r in {l.room for l in L}]),
@@ -347,26 +366,40 @@ def run_counts(ctx):
         ("select((s.id, count(c)) for s in Student for c in s.courses)", lambda G, C, S, L: [(s.id, len(s.courses)) for s in S if s.courses]),
         ("select((c.name, count(c)) for c in Course)", lambda G, C, S, L: [(n, sum(1 for c in C if c.name == n)) for n in {c.name for c in C}]),
         ("select((c.name, c.sem, count(c.students)) for c in Course)", lambda G, C, S, L: [(c.name, c.sem, len(c.students)) for c in C]),
+        # a collection path ending in an OPTIONAL to-one reference / a subclass, target with a composite key, some references missing
+        ("select((g.id, count(g.students.room)) for g in Group)", lambda G, C, S, L: [(g.id, len({s.room for s in g.students if s.room is not None})) for g in G]),
+        ("select(g.id for g in Group if len(g.students.room) == 1)", lambda G, C, S, L: [(g.id,) for g in G if len({s.room for s in g.students if s.room is not None}) == 1]),
+        ("select(g.id for g in Group if count(g.students.room) == 0)", lambda G, C, S, L: [(g.id,) for g in G if len({s.room for s in g.students if s.room is not None}) == 0]),
+        ("select((g.id, count(g.students.dog)) for g in Group)", lambda G, C, S, L: [(g.id, len({s.dog for s in g.students if s.dog is not None})) for g in G]),
+        ("select((g.id, count(g.students.pets)) for g in Group)", lambda G, C, S, L: [(g.id, len({p for s in g.students for p in s.pets})) for g in G]),
+        ("select((s.id, count(s.pets)) for s in Student)", lambda G, C, S, L: [(s.id, len(s.pets)) for s in S]),
+        ("select((g.id, count(g.students.tutor)) for g in Group)", lambda G, C, S, L: [(g.id, len({s.tutor for s in g.students if s.tutor is not None})) for g in G]),
         ("select((s.group.id, count(c)) for s in Student for c in s.courses if c.sem > 0)", lambda G, C, S, L: [(g.id, len({c for s in g.students for c in s.courses if c.sem > 0})) for g in G if any(c.sem > 0 for s in g.students for c in s.courses)]),
     ]
-    others = {p: mk(p) for p in ('postgres', 'oracle')}
+    others = {p: mk(p) for p in ('postgres', 'mysql', 'oracle')}
     for rd in range(ctx.scale(4, 30)):
         db, ns = mk('sqlite')
         with db_session:
             G = [ns['Group'](id=i) for i in (1, 2, 3)]
             C = [ns['Course'](name=n, sem=m) for n, m in rng.sample([('a', 1), ('a', 2), ('b', 1), ('b', 2)], rng.choice([2, 3, 4]))]
+            R = [ns['Room'](building=b_, number=n_) for b_, n_ in rng.sample([('A', 1), ('A', 2), ('B', 1)], rng.choice([1, 2, 3]))]
+            D = [ns['Dog'](name=n_, year=y_) for n_, y_ in rng.sample([('rex', 1), ('rex', 2), ('ace', 1)], rng.choice([1, 2, 3]))]
+            ns['Animal'](name='cat', year=1)
+            T_ = [ns['Tutor'](id=i) for i in (1, 2)]
             for i in range(rng.choice([3, 5, 7])):
-                ns['Student'](id=i + 1, group=rng.choice(G[:2]), courses=rng.sample(C, rng.randint(1, len(C))))
+                ns['Student'](id=i + 1, group=rng.choice(G[:2]), courses=rng.sample(C, rng.randint(1, len(C))),
+                              room=rng.choice([None, None] + R + R[:1]), dog=rng.choice([None] + D), pets=rng.sample(D, rng.randint(0, len(D))), tutor=rng.choice([None] + T_))
+            ns['Student'](id=90, group=G[2], courses=[])              # a group whose only student has no room, no dog, no tutor
             for i in range(rng.choice([3, 5, 8])):
                 ns['Lesson'](id=i + 1, course=rng.choice(C[:2]), room=rng.choice([1, 1, 2]))
         with db_session:
             G_, C_, S_, L_ = (list(ns[n].select()) for n in ('Group', 'Course', 'Student', 'Lesson'))
-            data = {'students (id, group, courses)': [(s.id, s.group.id, sorted(c.get_pk() for c in s.courses)) for s in S_], 'lessons (room, course)': [(l.room, l.course.get_pk()) for l in L_]}
+            data = {'students (id, group, courses, room, dog, pets, tutor)': [(s.id, s.group.id, sorted(c.get_pk() for c in s.courses), s.room and s.room.get_pk(), s.dog and s.dog.get_pk(), sorted(x.get_pk() for x in s.pets), s.tutor and s.tutor.id) for s in S_], 'lessons (room, course)': [(l.room, l.course.get_pk()) for l in L_]}
             for qsrc, ref in QUERIES:
                 exp = sorted(ref(G_, C_, S_, L_))
                 ctx.case(['counts', qsrc, rd], kind='counts')
                 res = {}
-                try: res['sqlite'] = sorted(tuple(r) for r in eval(qsrc, ns))
+                try: res['sqlite'] = sorted((tuple(r) if isinstance(r, tuple) else (r,)) for r in eval(qsrc, ns))
                 except Exception as ex: ctx.count('counts:sqlite:raises:' + type(ex).__name__)
                 con = db.get_connection()
                 for prov, (odb, ons) in others.items():
@@ -378,13 +411,17 @@ def run_counts(ctx):
                     if prov == 'postgres':
                         sql2 = re.sub(r'case when \(([^()]*?), ([^()]*?)\) IS NULL then null else \(\1, \2\) end', r"(\1 || x'1f' || \2)", sql)
                         if 'case when (' in sql2 or '%(' in sql2: ctx.count('counts:postgres:statement-not-emulated'); continue
+                    elif prov == 'mysql':
+                        # COUNT(DISTINCT a, b) of MySQL skips a row when any of the expressions is NULL
+                        sql2 = re.sub(r'COUNT\(DISTINCT ([^(),]+), ([^(),]+)\)', r"COUNT(DISTINCT \1 || x'1f' || \2)", sql)
+                        if re.search(r'COUNT\(DISTINCT [^()]*,', sql2) or '%s' in sql2: ctx.count('counts:mysql:statement-not-emulated'); continue
                     else: sql2 = sql
                     try: res[prov] = sorted(tuple(r) for r in con.execute(sql2).fetchall())
                     except Exception as ex: ctx.count('counts:%s:emulation-fails:%s' % (prov, type(ex).__name__))
                 ctx.count('counts:compared')
-                core_res = {k: v for k, v in res.items() if k in ('sqlite', 'postgres')}
+                core_res = {k: v for k, v in res.items() if k in ('sqlite', 'postgres', 'mysql')}
                 if len({json.dumps(v) for v in core_res.values()}) > 1 or any(v != exp for v in core_res.values()):
-                    ctx.violation('count() of a composite-key entity: SQLite, PostgreSQL (its statement on the same data) and Python disagree',
+                    ctx.violation('count() of a composite-key entity: SQLite, PostgreSQL / MySQL (their statements on the same data) and Python disagree',
                                   dict(data, query=qsrc), observed=core_res, expected={'python': exp}, key='count-composite-key:' + qsrc)
                 if 'oracle' in res and res['oracle'] != exp:
                     ctx.count('counts:suspected:oracle-statement-differs'); ctx.extra.setdefault('suspected_oracle_count', {'query': qsrc, 'oracle statement on the same data': res['oracle'][:4], 'python': exp[:4]})
